@@ -9,7 +9,7 @@ PROPS = ["C05"]
 PACKAGES = ["drv_net"]
 META = {
     "C05": {
-        "engine": "getrecord",
+        "engine": "getrecord", "more_engines": ["putrecord"],
         "level": "model_checking",
         "technique": "TLA+ state machine of the pending-read bookkeeping (GetNetworkRecord de-duplication, reply accumulation, the four terminating events) "
                      "and of the client-side split merge; TLC exhaustive (bounded) + simulation; TLC behaviours and driver-random ones executed on the real SwarmDriver "
